@@ -75,62 +75,92 @@ def check_mask_rules(p, mod, res):
     params = [a for a, _ in fn.params()]
     if "in_degrees" not in params or "is_output" not in params:
         raise AnalysisIncomplete("%s: _get_mask_and_degrees signature changed" % mod.name)
-    # returned pair (mask, degrees)
-    rets = [n for n in ast.walk(fn.node) if isinstance(n, ast.Return)]
-    if len(rets) != 1 or not isinstance(rets[0].value, ast.Tuple) or len(rets[0].value.elts) != 2 or not all(isinstance(e, ast.Name) for e in rets[0].value.elts):
-        res.undecide("%s:_get_mask_and_degrees" % mod.name, "does not end in a single `return mask, degrees`")
-        return
-    maskvar, degvar = (e.id for e in rets[0].value.elts)
-    top_if = [s for s in fn.node.body if isinstance(s, ast.If)]
-    if len(top_if) != 1 or norm_text(top_if[0].test) not in ("is_output", "not is_output"):
-        res.undecide("%s:_get_mask_and_degrees" % mod.name, "no top-level branch on is_output")
-        return
-    out_branch, hid_branch = (top_if[0].body, top_if[0].orelse) if norm_text(top_if[0].test) == "is_output" else (top_if[0].orelse, top_if[0].body)
+    # Decided on the returning paths of the expansion (locals and private helpers expanded):
+    # every path returns (mask, degrees); on the paths where is_output holds the mask is
+    # `degrees[..., None] > in_degrees` with degrees = tile(IN(F), out_features // F), on the
+    # others `degrees[..., None] >= in_degrees` for whatever degrees are returned.
+    from ..symexp import paths_of as _paths_of
 
-    def mask_assigns(block):
-        return [n for st in block for n in ast.walk(st) if isinstance(n, ast.Assign) and any(isinstance(t, ast.Name) and t.id == maskvar for t in n.targets)]
+    def unsq_of(e):
+        """X when e is X[..., None] / X[:, None] / X.unsqueeze(-1|1)"""
+        if isinstance(e, ast.Subscript):
+            sl = e.slice
+            elts = sl.elts if isinstance(sl, ast.Tuple) else [sl]
+            if len(elts) == 2 and isinstance(elts[1], ast.Constant) and elts[1].value is None:
+                return e.value
+        if isinstance(e, ast.Call) and isinstance(e.func, ast.Attribute) and e.func.attr == "unsqueeze" and e.args and const_number(e.args[0]) in (-1, 1):
+            return e.func.value
+        return None
 
-    # hidden layers
-    ms = mask_assigns(hid_branch)
-    if not ms:
-        res.undecide("%s:DEG-HID" % mod.name, "no mask assignment on the hidden path")
-    for m in ms:
-        op = _mask_compare(m.value, degvar, "in_degrees")
-        if op in (ast.GtE, ast.Gt):
-            res.ok("%s DEG-HID: mask = %s[...,None] %s in_degrees maps Deg(in) to Deg(out) for any out" % (mod.name, degvar, ">=" if op is ast.GtE else ">"))
-        elif op is None:
-            res.fail(Finding("DEG-HID", mod, fn.qualname, m, "hidden-layer mask is not `out_degrees[..., None] >= in_degrees` (out degrees on the row side): unit k could see inputs above its degree"))
+    def mask_op(mask, deg):
+        """comparison class of `deg[..., None] OP in_degrees` (row side = returned degrees)"""
+        m = _strip_float(mask)
+        if not (isinstance(m, ast.Compare) and len(m.ops) == 1):
+            return None
+        l, r = m.left, m.comparators[0]
+        op = type(m.ops[0])
+        swap = {ast.Gt: ast.Lt, ast.GtE: ast.LtE, ast.Lt: ast.Gt, ast.LtE: ast.GtE}
+        dt = norm_text(deg)
+        ul, ur = unsq_of(l), unsq_of(r)
+        if ul is not None and norm_text(ul) == dt and norm_text(r) == "in_degrees":
+            return op
+        if ur is not None and norm_text(ur) == dt and norm_text(l) == "in_degrees":
+            return swap.get(op)
+        return None
+
+    n_hid = n_out = 0
+    for path in _paths_of(fn.node):
+        if path.kind != "return":
+            continue
+        r = path.ret
+        if not (isinstance(r, ast.Tuple) and len(r.elts) == 2):
+            res.undecide("%s:_get_mask_and_degrees" % mod.name, "a path does not return (mask, degrees)")
+            continue
+        mask, deg = r.elts
+        atoms = set()
+        for et, raw, pol in path.conds:
+            atoms |= cond_atoms(raw, pol)
+        is_out = "is_output" in atoms
+        is_hid = "not(is_output)" in atoms
+        if not (is_out or is_hid):
+            res.undecide("%s:_get_mask_and_degrees" % mod.name, "a returning path does not decide is_output")
+            continue
+        op = mask_op(mask, deg)
+        node = path.ret_node
+        if is_hid:
+            n_hid += 1
+            if op in (ast.GtE, ast.Gt):
+                res.ok("%s DEG-HID: mask = degrees[...,None] %s in_degrees maps Deg(in) to Deg(out) for any out" % (mod.name, ">=" if op is ast.GtE else ">"))
+            elif op is None:
+                res.fail(Finding("DEG-HID", mod, fn.qualname, node, "hidden-layer mask is not `out_degrees[..., None] >= in_degrees` (out degrees on the row side): unit k could see inputs above its degree", construct="hidden mask"))
+            else:
+                res.fail(Finding("DEG-HID", mod, fn.qualname, node, "hidden-layer mask uses the wrong comparison direction: a unit of degree d would be connected to units of degree > d", construct="hidden mask"))
         else:
-            res.fail(Finding("DEG-HID", mod, fn.qualname, m, "hidden-layer mask uses the wrong comparison direction: a unit of degree d would be connected to units of degree > d"))
-    # output layer
-    ms = mask_assigns(out_branch)
-    if not ms:
-        res.undecide("%s:DEG-OUT" % mod.name, "no mask assignment on the output path")
-    for m in ms:
-        op = _mask_compare(m.value, degvar, "in_degrees")
-        if op is ast.Gt:
-            res.ok("%s DEG-OUT: output mask is strict (>)" % mod.name)
-        elif op is ast.GtE:
-            res.fail(Finding("DEG-OUT", mod, fn.qualname, m, "output-layer mask uses >=: the outputs of feature i would depend on input i itself (not strictly autoregressive)"))
-        else:
-            res.fail(Finding("DEG-OUT", mod, fn.qualname, m, "output-layer mask is not `out_degrees[..., None] > in_degrees`"))
-    # output degrees: tile(_get_input_degrees(F), out_features // F)
-    das = [n for st in out_branch for n in ast.walk(st) if isinstance(n, ast.Assign) and any(isinstance(t, ast.Name) and t.id == degvar for t in n.targets)]
-    okd = False
-    for d in das:
-        v = d.value
-        if isinstance(v, ast.Call):
-            callee = p.resolve_expr(mod, v.func)
-            if getattr(callee, "name", None) == "tile" and len(v.args) == 2:
-                a0, a1 = v.args
-                inner = p.resolve_expr(mod, a0.func) if isinstance(a0, ast.Call) else None
-                if getattr(inner, "name", None) == "_get_input_degrees" and norm_text(a0.args[0]) == "autoregressive_features" and norm_text(a1) == "out_features // autoregressive_features":
-                    okd = True
-                    res.ok("%s DEG-OUT: out_degrees = tile(IN(F), out_features // F)" % mod.name)
-                    continue
-        res.fail(Finding("DEG-OUT", mod, fn.qualname, d, "output degrees are not tile(_get_input_degrees(F), out_features // F): output blocks would not line up with features"))
-    if not das:
-        res.undecide("%s:DEG-OUT" % mod.name, "no degrees assignment on the output path")
+            n_out += 1
+            if op is ast.Gt:
+                res.ok("%s DEG-OUT: output mask is strict (>)" % mod.name)
+            elif op is ast.GtE:
+                res.fail(Finding("DEG-OUT", mod, fn.qualname, node, "output-layer mask uses >=: the outputs of feature i would depend on input i itself (not strictly autoregressive)", construct="output mask"))
+            else:
+                res.fail(Finding("DEG-OUT", mod, fn.qualname, node, "output-layer mask is not `out_degrees[..., None] > in_degrees`", construct="output mask"))
+            # output degrees: tile(_get_input_degrees(F), out_features // F)
+            okd = False
+            v = deg
+            if isinstance(v, ast.Call):
+                callee = p.resolve_expr(mod, v.func)
+                if getattr(callee, "name", None) == "tile" and len(v.args) == 2:
+                    a0, a1 = v.args
+                    inner = p.resolve_expr(mod, a0.func) if isinstance(a0, ast.Call) else None
+                    if getattr(inner, "name", None) == "_get_input_degrees" and a0.args and norm_text(a0.args[0]) == "autoregressive_features" and norm_text(a1) == "out_features // autoregressive_features":
+                        okd = True
+            if okd:
+                res.ok("%s DEG-OUT: out_degrees = tile(IN(F), out_features // F)" % mod.name)
+            else:
+                res.fail(Finding("DEG-OUT", mod, fn.qualname, node, "output degrees are not tile(_get_input_degrees(F), out_features // F): output blocks would not line up with features", construct="output degrees"))
+    if not n_hid:
+        res.undecide("%s:DEG-HID" % mod.name, "no returning path for hidden layers")
+    if not n_out:
+        res.undecide("%s:DEG-OUT" % mod.name, "no returning path for the output layer")
     # _get_input_degrees = arange(1, F+1)
     gid = mod.functions.get("_get_input_degrees")
     if gid is None:
@@ -317,6 +347,10 @@ def extract_wiring(p, cls):
                 s = _sym_of(v, env, w)
                 if s is not None:
                     env[t.id] = s
+                elif isinstance(v, ast.IfExp) and all(isinstance(p.resolve_expr(cls.module, b), ClassInfo) for b in (v.body, v.orelse) if isinstance(b, (ast.Name, ast.Attribute))) and all(isinstance(b, (ast.Name, ast.Attribute)) for b in (v.body, v.orelse)):
+                    # X = A if c else B : constructor selection
+                    for b in (v.body, v.orelse):
+                        env.setdefault("#ctors", {}).setdefault(t.id, set()).add(p.resolve_expr(cls.module, b))
                 elif isinstance(v, ast.List) and not v.elts:
                     env[t.id] = ("blocklist", None)
                 elif isinstance(v, ast.Name) and isinstance(env.get(v.id), tuple):
@@ -334,6 +368,9 @@ def extract_wiring(p, cls):
                 elif isinstance(v, ast.Call):
                     r = p.resolve_expr(cls.module, v.func)
                     dotted = r[1] if isinstance(r, tuple) and r[0] == "ext" else None
+                    if dotted == "torch.nn.ModuleList" and not v.args:
+                        # self.blocks = nn.ModuleList(); filled by append in a loop
+                        env["self." + slot] = ("blocklist", None)
                     if dotted == "torch.nn.ModuleList" and v.args:
                         a = v.args[0]
                         if isinstance(a, ast.List):
@@ -386,17 +423,29 @@ def extract_wiring(p, cls):
                 pass
 
     def _loop(st, env):
-        """for _ in range(n): blocks.append(C(in_degrees=prev, ...)); prev = blocks[-1].degrees"""
+        """for _ in range(n): blocks.append(C(in_degrees=prev, ...)); prev = blocks[-1].degrees
+        -- also with the block bound to a local first and / or appended to a ModuleList attribute"""
         appends = []
         carried = None
+        local_ctor = {}
         for s in st.body:
-            if isinstance(s, ast.Expr) and isinstance(s.value, ast.Call) and isinstance(s.value.func, ast.Attribute) and s.value.func.attr == "append" and isinstance(s.value.func.value, ast.Name):
-                appends.append((s.value.func.value.id, s.value.args[0] if s.value.args else None))
+            if isinstance(s, ast.Expr) and isinstance(s.value, ast.Call) and isinstance(s.value.func, ast.Attribute) and s.value.func.attr == "append":
+                recv = s.value.func.value
+                key = recv.id if isinstance(recv, ast.Name) else (attr_chain(recv) if attr_chain(recv) and attr_chain(recv).startswith("self.") else None)
+                if key is not None:
+                    appends.append((key, s.value.args[0] if s.value.args else None))
             elif isinstance(s, ast.Assign) and len(s.targets) == 1 and isinstance(s.targets[0], ast.Name):
-                carried = (s.targets[0].id, s.value)
+                if isinstance(s.value, ast.Call) and _kw(s.value, "in_degrees", None) is not None:
+                    local_ctor[s.targets[0].id] = s.value
+                else:
+                    carried = (s.targets[0].id, s.value)
         if len(appends) != 1:
             return
         lst, ctor = appends[0]
+        blockvar = None
+        if isinstance(ctor, ast.Name) and ctor.id in local_ctor:
+            blockvar = ctor.id
+            ctor = local_ctor[ctor.id]
         if not (isinstance(env.get(lst), tuple) and env[lst][0] == "blocklist") or not isinstance(ctor, ast.Call):
             return
         ind = _kw(ctor, "in_degrees", 0)
@@ -409,12 +458,18 @@ def extract_wiring(p, cls):
         if isinstance(ind, ast.Name) and carried is not None and carried[0] == ind.id:
             info["start"] = env.get(ind.id)
             cv = carried[1]
-            # carried := <list>[-1].degrees
-            if isinstance(cv, ast.Attribute) and cv.attr == "degrees" and isinstance(cv.value, ast.Subscript) and isinstance(cv.value.value, ast.Name) and cv.value.value.id == lst and const_number(cv.value.slice) == -1:
-                info["step_ok"] = True
+            # carried := <list>[-1].degrees   or   <the block just built>.degrees
+            if isinstance(cv, ast.Attribute) and cv.attr == "degrees":
+                b = cv.value
+                if isinstance(b, ast.Subscript) and const_number(b.slice) == -1 and (norm_text(b.value) == lst):
+                    info["step_ok"] = True
+                elif blockvar is not None and isinstance(b, ast.Name) and b.id == blockvar:
+                    info["step_ok"] = True
             info["carried"] = ind.id
             env[ind.id] = ("chain-exit", lst)
         env[lst] = ("blocklist", info)
+        if lst.startswith("self."):
+            w.chain = dict(info, slot=lst[5:], listvar=lst)
 
     walk(init.node.body, env)
     w.env = env
@@ -498,8 +553,12 @@ class Typer:
         if isinstance(e, ast.Subscript):
             ch = attr_chain(e.value)
             i = const_number(e.slice)
+            if i is None and isinstance(e.slice, ast.Name) and isinstance(getattr(self, "consts", {}).get(e.slice.id), int):
+                i = self.consts[e.slice.id]
             if ch and ch.startswith("self.") and i is not None:
                 return "%s[%d]" % (ch[5:], i)
+            if ch and ch.startswith("self."):
+                return "%s[*]" % ch[5:]
             return None
         ch = attr_chain(e)
         if ch and ch.startswith("self."):
@@ -552,6 +611,32 @@ class Typer:
                     return None
                 if slot in self.w.callables or slot in ("activation",):
                     return self.type_expr(args[0], env) if args else BOT  # A-NET: elementwise
+                helper = self.cls.lookup_method(slot) if "[" not in slot and "." not in slot else None
+                if helper is not None and slot.startswith("_") and not slot.startswith("__") and getattr(self, "_depth", 0) < 4:
+                    # a private helper of the class: type its body with the argument types
+                    params = [a for a, _ in helper.params()]
+                    henv = {}
+                    saved = dict(getattr(self, "consts", {}))
+                    self.consts = dict(saved)
+                    for pn, a in zip(params, e.args):
+                        henv[pn] = self.type_expr(a, env)
+                        if const_number(a) is not None:
+                            self.consts[pn] = const_number(a)
+                    for k in e.keywords:
+                        if k.arg in params:
+                            henv[k.arg] = self.type_expr(k.value, env)
+                    rets = []
+                    self._depth = getattr(self, "_depth", 0) + 1
+                    try:
+                        self.block(helper.node.body, henv, rets)
+                    finally:
+                        self._depth -= 1
+                        self.consts = saved
+                    types = [t for _, t in rets]
+                    if types and all(t == types[0] for t in types):
+                        return types[0]
+                    self.fail("DEG-WIRE", e, "helper self.%s returns values of different degree types %s" % (slot, [_show(t) for t in types]))
+                    return None
                 # chained block call through the loop is handled by the statement walker
                 self.fail("DEG-ELEM", e, "call of self.%s on the conditioner path is not a masked layer, an elementwise activation, dropout or batch norm" % slot)
                 return None
